@@ -102,6 +102,18 @@ func c14Cfgs(tier string) []*histCfg {
 			mon.exp[name] = []string{id}
 			alpha = append(alpha, event{Name: name, Do: func(w *world) { w.in(w.msg("1", "112="+id)) }})
 		}
+		// framing that is right but not written the way the library writes it: BodyLength with leading zeros, a
+		// MsgSeqNum with leading zeros - the request is a request all the same
+		for k, pad := range []string{"0", "000"} {
+			pad := pad
+			name := fmt.Sprintf("TestRequest(9=%sNN)", pad)
+			id := fmt.Sprintf("pad%d", k)
+			mon.exp[name] = []string{id}
+			alpha = append(alpha, event{Name: name, Do: func(w *world) {
+				fs := tokens(w.msg("1", "112="+id))
+				w.in(reframe(fs, pad+fs[1].V))
+			}})
+		}
 		alpha = append(alpha,
 			event{Name: "Heartbeat", Do: func(w *world) { w.in(w.msg("0")) }},
 			event{Name: "App(D)", Do: func(w *world) { w.in(w.msg("D", "11=x")) }},
